@@ -39,6 +39,22 @@ func parseFeat(s string) (on featSet, off featSet) {
 }
 
 // drawPolicy: swarm over scheduling policies.
+// drawPolicyOn is drawPolicy for harness goroutines other than the driver (draws under the
+// simulator's lock).
+func drawPolicyOn(s *sched.Sim) sched.Policy {
+	pol := sched.Policy{Deviation: []int{16, 16, 6, 2}[s.Draw(4)]}
+	switch s.Draw(4) {
+	case 0:
+		pol.NoSearch = map[string]bool{"start": true, "amr.send.res": true, "amr.send.err": true, "amr.done": true}
+	case 1:
+		pol.NoSearch = map[string]bool{"start": true}
+	case 2:
+		pol.Hold = map[string]bool{"net.reply": true}
+		pol.HoldNum = 12
+	}
+	return pol
+}
+
 func drawPolicy(s *sched.Sim) sched.Policy {
 	pol := sched.Policy{Deviation: []int{16, 16, 6, 2}[s.T.Choose(4)]}
 	switch s.T.Choose(4) {
